@@ -136,7 +136,7 @@ def main():
         "engines": [
             {"name": "tlc", "path": "/opt/veriftools/tla/tla2tools.jar", "serves_properties": sorted(CHECKS), "kind_free_text": "TLC 1.8 explicit-state model checker; specs in /verif/spec"},
             {"name": "tlapm", "path": "/opt/veriftools/tlapm", "serves_properties": ["C13", "C14", "C15", "C16", "C18", "C19", "C20"],
-             "kind_free_text": "TLA+ proof system: unbounded companions (inductive invariants / lemmas) of the model-checked machines, spec/*Proof.tla and spec/*Lemma.tla; re-checked by the named checks, a missing prover is only recorded"},
+             "kind_free_text": "TLA+ proof system: unbounded companions (inductive invariants / lemmas) of the model-checked machines, spec/*Proof.tla and spec/*Lemma.tla; re-run by the named checks; the outcome is recorded in the evidence and never decides a check"},
         ],
         "checks": [],
         "not_applicable": [],
